@@ -217,6 +217,21 @@ class Loader:
         self.names = ['.'.join(p) for p in self.elems]
         self.desc = desc_of(self.eng, self.elems, job['decl'])
         self.facs = None
+        self.nstep = 0
+
+    def work_in_progress(self):
+        '''every other (re)load finds the farm at work: what the previous build queued has been released and is executing
+        (the harness plays farm.dispatch: next_job_batch(), status running) when the next build() arrives'''
+        self.nstep += 1
+        wip = 0
+        if self.nstep % 2 == 0 and getattr(schedule, 'ae', None) is not None:
+            try:
+                for j in schedule.next_job_batch():
+                    j.set('status', schedule.State.running)
+                    wip += 1
+            except Exception:  # pylint: disable=broad-except
+                pass
+        return wip
 
     def load_current(self):
         self.facs = engine.load(self.desc)
@@ -254,6 +269,7 @@ class Loader:
         err = ''
         latest = ({}, {}, {})
         previous = ({}, {}, {}, {})
+        wip = self.work_in_progress()
         try:
             if case['mode'] == 'shelve':
                 previous, dbdir = self.previous_shelve(case)
@@ -294,7 +310,7 @@ class Loader:
             finally:
                 shutil.rmtree(dbdir, True)
                 self.facs = None
-        return {'ev': 'Build', 'args': args, 'st': st, 'obs': {'extra': extra, 'els': obs_els}}
+        return {'ev': 'Build', 'args': args, 'st': st, 'obs': {'extra': extra, 'els': obs_els, 'wip': wip}}
 
 
 def snapshot(err):
